@@ -204,6 +204,8 @@ func (e *Engine) resetPath(prefix []dec) {
 	e.extra = map[string]any{}
 	e.notes = map[string]int{}
 	e.observed = nil
+	e.shared = nil
+	e.sharedW = nil
 	// keep the solver's definition table bounded
 	if e.sv.nDefs > 400000 {
 		e.sv.Restart()
